@@ -22,19 +22,22 @@ def arms_of(v):
     return None
 
 
-def run(ck, facts, tier):
+def run(ck, facts, tier, only=None):
+    """only: None (all) | set of {'gradient1[Dual]', 'gradient1[Dual2]', 'gradient2[Dual2]', 'manifold'} when included by another property"""
     hooks = {"@elem": gather.container_elem}
     vars_req = Sym("param", "vars")
     T = Sym("collect", cel.vkey(vars_req))
     # ---------------- R17.1 gradient1 / gradient2
     r1 = ck.rule("R17.1", "gradient1 / gradient2: the stored array is returned as is only when the requested list is Arc- or Value-equivalent to the stored list "
                           "(vars_cmp against the requested list); otherwise the answer is gathered by name: entry i is the stored derivative at "
-                          "get_index_of(stored vars, requested[i]) and zero when absent — so the order of the answer is the order asked", floor=3)
-    r2 = ck.rule("R17.2", "the stored half-Hessian is multiplied by exactly 2 on both paths of gradient2 (and in the manifold rows)", floor=3)
+                          "get_index_of(stored vars, requested[i]) and zero when absent — so the order of the answer is the order asked", floor=3 if only is None else len([x for x in only if x.startswith("gradient")]))
+    r2 = ck.rule("R17.2", "the stored half-Hessian is multiplied by exactly 2 on both paths of gradient2 (and in the manifold rows)", floor=3 if only is None else (2 if "gradient2[Dual2]" in only else 0))
     for fn, num, fld, ndim in (("dual::dual::Gradient1::gradient1", D1, "dual", 1), ("dual::dual::Gradient1::gradient1", D2, "dual", 1),
                                ("dual::dual::Gradient2::gradient2", D2, "dual2", 2)):
         r = facts.fn(fn)
         key = "%s[%s]" % (fn.rsplit("::", 1)[-1], num.rsplit("::", 1)[-1])
+        if only is not None and key not in only:
+            continue
         if r is None:
             ck.fail(r1, key, "function not found")
             continue
@@ -72,10 +75,12 @@ def run(ck, facts, tier):
 
     # ---------------- R17.3 manifold
     r3 = ck.rule("R17.3", "gradient1_manifold: entry i has value = stored dual[idx_i], gradient[j] = 2*stored dual2[idx_i, idx_j], zero Hessian, on the requested "
-                          "variable list; a requested name the number does not depend on gives the zero number on that list", floor=1)
+                          "variable list; a requested name the number does not depend on gives the zero number on that list", floor=1 if only is None or "manifold" in only else 0)
     fn = "dual::dual::Gradient2::gradient1_manifold"
     r = facts.fn(fn)
-    if r is None:
+    if only is not None and "manifold" not in only:
+        pass
+    elif r is None:
         ck.fail(r3, "gradient1_manifold", "function not found")
     else:
         where = "%s:%d" % (r["file"], r["line"])
@@ -117,10 +122,17 @@ def run(ck, facts, tier):
                         why = "manifold gradient row wrong (see R17.2)"
                     if ok:
                         z = absn[0]["val"]
-                        ok = isinstance(z, Rec) and z.fields["real"].is_zero() and cel.vkey(z.fields["vars"]) == cel.vkey(newvars) and cel.num(z.fields["dual2"]) == Poly({}, 2)
-                        why = "absent name does not give the zero number on the requested list: %s" % cel.vfmt(z)[:300]
+                        okz = isinstance(z, Rec) and z.fields["real"].is_zero() and cel.vkey(z.fields["vars"]) == cel.vkey(newvars) and cel.num(z.fields["dual2"]) == Poly({}, 2)
+                        zd = cel.num(z.fields["dual"]) if isinstance(z, Rec) else None
+                        ck.check(r3, "gradient1_manifold:absent-name", okz and isinstance(zd, Poly) and zd.is_zero(),
+                                 "the entry for a requested name the number does not depend on is not the zero number: its own gradient is %s (the matching Hessian row is zero)"
+                                 % (cel.vfmt(zd)[:120] if zd is not None else None), where, sample="absent name -> (0, zeros, zeros) on the requested list")
+                        ok = okz
+                        why = "absent name does not give a zero-valued number on the requested list: %s" % cel.vfmt(z)[:300]
             ck.check(r3, "gradient1_manifold", ok, why, where, sample="grad[i] = Dual2{real: dual[idx_i], dual[j]: 2*dual2[idx_i,idx_j], dual2: 0, vars: requested}")
         except Unsupported as e:
             ck.fail(r3, "gradient1_manifold", "rule could not be established (%s)" % e, where)
+    if only is not None:
+        return
     ck.not_decided += ["the product-rule identity on concrete numbers (a consequence of R17.3 + C02)", "requested lists with repeated names (the IndexSet drops duplicates; the manifold then sizes its arrays by the raw list)"]
     ck.trusted += ["lib/cel.py array-comprehension semantics (guarded indexed writes in loops)", "indexmap get_index_of = position by name"]
